@@ -18,6 +18,7 @@ def session(rec):
 
     cls = get_oracle(rec["property"])
     ss = rec["session"]
+    os.environ["PROVSIM_TIER"] = ss.get("tier", "quick")  # history lengths depend on the tier
     res = None
     for k in range(ss["k"] + 1):
         res = core.simulate(cls, ss["seed0"] + ss["offset"] + k * ss["stride"])
